@@ -3,10 +3,12 @@
    leaf machine.  MODEL: coq/Model/C01.v, the combinators transcribed from pkg/blobserver/*.
    Proved for all inputs: the laws of the statement on the SPEC; enumeration exactness and paging for every cursor
    string and page size; mergedEnumerate (used by replica, shard, union, overlay) = first `limit` of the sorted
-   union for any number of sources; the n-ary replica combinator refines the SPEC whenever its children do, hence
-   (by induction on the configuration) every nesting of replicas over leaves does, for every operation sequence.
-   The other combinators (shard, overlay, namespace, proxycache, cond, union) are executable models tied to the code
-   and to the SPEC by the correspondence run only: the nesting theorem is therefore named _partial. *)
+   union for any number of sources; the replica, shard, cond and proxycache combinators each refine the SPEC whenever
+   their children do (shard: under the invariant that every ref lives in the kid its digest routes to; proxycache:
+   under the invariant that the cache holds only blobs of the origin; eviction is not modelled), hence (by induction
+   on the configuration) every nesting of these four over leaves does, for every operation sequence.
+   The remaining combinators (overlay, namespace, union) are executable models tied to the code and to the SPEC by
+   the correspondence run only: the nesting theorem is therefore still named _partial. *)
 From Coq Require Import List NArith ZArith Bool.
 From PK.Base Require Import Bytes Lex SortedMap.
 From PK.Model Require Import Merge C12 C01.
@@ -62,8 +64,30 @@ Theorem C01_replica_refines : forall content T, C01.okl content T -> T <> [] ->
 Proof. exact C01.replica_refines. Qed.
 Print Assumptions C01_replica_refines.
 
-(* every nesting (any depth, any fan-out >= 1) of replicas over removable leaves answers every operation sequence
-   exactly like the reference map *)
+(* shard over ANY children that refine the map refines the map: a ref is written, read and removed in the one kid its
+   digest routes to, stats and removals are split by route, enumeration merges all kids *)
+Theorem C01_shard_refines : forall content T, C01.okl content T -> T <> [] ->
+  C01.refines content (shard (map C01.tM T)) (C01.shard_abs T) (C01.shard_inv T).
+Proof. exact C01.shard_refines. Qed.
+Print Assumptions C01_shard_refines.
+
+(* cond (schema blobs to both, everything else to a; read a; remove both) behaves as a *)
+Theorem C01_cond_refines : forall content ta tb,
+  C01.refines content (C01.tM ta) (C01.tA ta) (C01.tI ta) -> C01.refines content (C01.tM tb) (C01.tA tb) (C01.tI tb) ->
+  C01.refines content (cond (C01.tM ta) (C01.tM tb)) (C01.cond_abs ta) (C01.cond_inv ta tb).
+Proof. exact C01.cond_refines. Qed.
+Print Assumptions C01_cond_refines.
+
+(* proxycache behaves as its origin, given that the cache only ever holds blobs of the origin - an invariant every
+   operation keeps, with the removal order cache-then-origin and the upload order origin-then-cache of the code *)
+Theorem C01_proxycache_refines : forall content tc to,
+  C01.refines content (C01.tM tc) (C01.tA tc) (C01.tI tc) -> C01.refines content (C01.tM to) (C01.tA to) (C01.tI to) ->
+  C01.refines content (proxycache (C01.tM tc) (C01.tM to)) (C01.pc_abs to) (C01.pc_inv tc to).
+Proof. exact C01.proxycache_refines. Qed.
+Print Assumptions C01_proxycache_refines.
+
+(* every nesting (any depth, any fan-out >= 1) of replicas, shards, cond and proxycache over removable leaves answers
+   every operation sequence exactly like the reference map *)
 Theorem C01_nest_behaves_as_map_partial : forall content c ops, C01.shape_ok c = true ->
   Forall (C01.op_ok content) ops -> run (sem c) (init c) ops = C01.run_spec [] ops.
 Proof. exact C01.nest_behaves_as_map. Qed.
@@ -78,9 +102,9 @@ Theorem C01_subfetch_whole : forall b, subfetch b 0 (Z.of_nat (length b)) = Some
 Proof. exact C01.subfetch_whole. Qed.
 Print Assumptions C01_subfetch_whole.
 
-(* non-vacuity: a three-level nesting with duplicates across sub-stores meets the hypotheses and behaves as the map *)
+(* non-vacuity: a four-level nesting of all four proved combinators meets the hypotheses and behaves as the map *)
 Example C01_nonvacuous :
-  let c := Replica [Replica [Leaf true; Leaf true]; Leaf true] in
+  let c := ProxyCache (Leaf true) (Shard [Replica [Replica [Leaf true; Leaf true]; Leaf true]; Cond (Leaf true) (Leaf true)]) in
   let ops := [Recv [1%N] [7%N] false; Recv [2%N] [8%N] true; Remove [[1%N]]; Enum [] 5; Fetch [2%N]] in
   C01.shape_ok c = true /\ Forall (C01.op_ok (fun r => match r with [1%N] => [7%N] | _ => [8%N] end)) ops /\
   run (sem c) (init c) ops = C01.run_spec [] ops /\
